@@ -53,6 +53,41 @@ pub fn replay_file(path: &str) -> i32 {
             return 0;
         }
     };
+    // a recorded collection schedule: replay under it (real forced collections + heap audit), twice
+    if !v["detail"]["gc_schedule"].is_null() {
+        use marwood::vm::verif::GcSchedule;
+        let sched = match &v["detail"]["gc_schedule"] {
+            Value::Object(o) if o.contains_key("every") => GcSchedule::Every { k: o["every"][0].as_u64().unwrap_or(1), phase: o["every"][1].as_u64().unwrap_or(0) },
+            Value::Object(o) if o.contains_key("at") => GcSchedule::At(o["at"].as_array().map(|a| a.iter().filter_map(|x| x.as_u64()).collect()).unwrap_or_default()),
+            _ => GcSchedule::Never,
+        };
+        let between = v["detail"]["collect_between_forms"].as_bool().unwrap_or(false);
+        let forms = match parse_forms(&session) {
+            Ok(f) => f,
+            Err(e) => {
+                println!("session does not parse: {}", e);
+                return 2;
+            }
+        };
+        let mut runs = vec![];
+        for _ in 0..2 {
+            let mut im = Impl::new();
+            let base = crate::gcsched::run_scheduled(&mut im, &forms, GcSchedule::Never, false, false);
+            let mut im2 = Impl::new();
+            let run = crate::gcsched::run_scheduled(&mut im2, &forms, sched.clone(), between, true);
+            runs.push((base.outs, base.output, run.outs, run.output, run.problems, run.collections));
+        }
+        let r = &runs[0];
+        println!("without collection: results {:?} output {:?}", r.0, r.1);
+        println!("with schedule {}: results {:?} output {:?}", v["detail"]["gc_schedule"], r.2, r.3);
+        println!("collections forced: {}; heap audit problems: {:?}", r.5, r.4);
+        if runs[0] != runs[1] {
+            println!("NONDETERMINISTIC-REPLAY: two runs of the recorded schedule differ");
+            return 2;
+        }
+        println!("(second run: identical observations)");
+        return 0;
+    }
     let a = run_text(&session, true);
     let b = run_text(&session, true);
     for l in &a {
